@@ -802,6 +802,12 @@ func corpusScenarios() []scenario {
 		{Name: "install-order-of-lock-list-differs", Archs: both(), World: []string{"x"}, Pkgs: []pspec{
 			{Name: "x", Version: "1.0-r0", Archs: both(), Deps: []string{"v", "w0"}}, {Name: "w0", Version: "1.0-r0", Archs: both()},
 			{Name: "z0", Version: "1.0-r0", Archs: both(), Provides: []string{"v=1"}}}},
+		// the positive side of c09_fixpoint_pinned_partial: the untagged 0b is expanded before a@edge and needs the tagged a by its own
+		// NAME: a is admitted because phase 1 put it into `existing` (the installed-from-elsewhere exemption of filterPackages); the lock
+		// [0b=.. a=..@edge d=..] resolves to its origin
+		{Name: "tagged-dependency-admitted-by-own-name", Archs: both(), World: []string{"0b", "a@edge"}, Pkgs: []pspec{
+			{Name: "0b", Version: "1.0-r0", Archs: both(), Deps: []string{"a"}},
+			{Name: "a", Version: "2.0-r0", Archs: both(), Edge: true, Deps: []string{"d"}}, {Name: "d", Version: "3.0-r0", Archs: both()}}},
 		{Name: "dependency-missing-on-one-arch", Archs: both(), World: []string{"a"}, Pkgs: []pspec{
 			{Name: "a", Version: "1.0-r0", Archs: both(), Deps: []string{"b"}}, {Name: "b", Version: "1.0-r0", Archs: []string{X}}}},
 		// the repositories and the key come through build options: the locked configurations are re-resolved on their own, so they must
